@@ -107,6 +107,10 @@ def core_definitions():
     ds.append(("auto_cell", [], [A("c", "CellT"), A("a", "P8"), C(), R("c"), A("g", "GuardT"), C()]))
     ds.append(("auto_ptr", ["clone"], [A("a", "Tracked"), C(), A("p", "PtrT"), C()]))
     # Send + Sync types whose NAMES mention a type that is neither (C14, converse direction)
+    # a field type named Option<..> at the end of the declaration order; a user generic over a std type
+    ds.append(("opt_tail", ["clone", "serde"], [A("id", "P4"), A("label", "Str"), A("note", "OptP4"), A("rank", "OptP4", True), C(),
+                                                R("id"), A("tail", "P2"), C()]))
+    ds.append(("wrapped_std", ["clone", "serde"], [A("a", "P4"), A("w", "WrapStr"), C(), A("b", "Tracked"), R("a"), C()]))
     ds.append(("auto_generic", ["clone"], [A("a", "P4"), A("f", "FnRc"), C(), A("m", "MxCell"), C(), R("f"), C()]))
     # through a pre-computed table: typed and dynamic entry points
     ds.append(("via_table", ["serde"], [A("a", "P8", True, "dynamic"), A("b", "TrackedOdd", False, "dynamic"), A("c", "P2"), C(),
@@ -405,6 +409,8 @@ def serde_scripts(d, rng, pay, v, thorough):
     n = len(fs)
     out = []
     fmts = ["json", "jsonvalue", "bincode"]
+    if any(f["key"] == "OptP4" for f in fs):
+        fmts = ["json", "jsonvalue"]      # the lab's bincode reader assumes one u32 per field
     for fmt in fmts:
         base = [{"op": "new", "slot": 1, "v": v, "place": place(rng), "vals": vals_for(pay, fs)},
                 {"op": "ser", "slot": 1, "fmt": fmt}]
